@@ -188,35 +188,31 @@ def _alternatives(model, pkgflat):
                     bun_keys.append(dkey)
                     bun_opts.append(cands)
 
-    if not choice_keys and not bun_keys:
-        yield {"seg": fixed, "bun": bun_fixed}
+    # ambiguous bundle leaves are resolved by constraint propagation inside _compare_with
+    amb = []
+    for key, opts in zip(bun_keys, bun_opts):
+        for mp in bun_paths[key]:
+            amb.append(((mp, key[1], key[2]), opts))
+    if not choice_keys:
+        yield {"seg": fixed, "bun": bun_fixed, "amb": amb}
         return
-    # Ambiguity: enumerate alternatives (instance choices first)
     tried = 0
-    for combo in itertools.product(*(choice_opts + bun_opts)):
+    for combo in itertools.product(*choice_opts):
         tried += 1
-        if tried > 5000:
+        if tried > 2000:
             return
         segmap = dict(fixed)
-        ok = True
-        for key, val in zip(choice_keys, combo[: len(choice_keys)]):
+        for key, val in zip(choice_keys, combo):
             segmap[key] = val
-        # injectivity per parent
-        seen = {}
+        seen = set()
+        ok = True
         for (mp, seg), name in segmap.items():
             if (mp, name) in seen:
                 ok = False
                 break
-            seen[(mp, name)] = seg
-        if not ok:
-            continue
-        bmap = dict(bun_fixed)
-        for key, val in zip(bun_keys, combo[len(choice_keys) :]):
-            for mp in bun_paths[key]:
-                bmap[(mp, key[1], key[2])] = val
-        if len(set((k[0], v) for k, v in bmap.items())) != len(bmap):
-            continue
-        yield {"seg": segmap, "bun": bmap}
+            seen.add((mp, name))
+        if ok:
+            yield {"seg": segmap, "bun": bun_fixed, "amb": amb}
 
 
 def _map_path(mpath, segmap):
@@ -226,7 +222,7 @@ def _map_path(mpath, segmap):
     return out
 
 
-def _compare_with(model, pkgflat, mapping):
+def _compare_with(model, pkgflat, mapping, limit=6):
     diffs = []
     segmap = mapping["seg"]
     try:
@@ -291,8 +287,66 @@ def _compare_with(model, pkgflat, mapping):
             diffs.append(f"nets shorted: {_fmt(p2m[pn][1])} and {_fmt(what)} are distinct in the design, one net in the package")
         else:
             p2m.setdefault(pn, (mn, what))
-        if len(diffs) >= 6:
+        if limit is not None and len(diffs) >= limit:
             break
+    if diffs or not mapping.get("amb"):
+        return diffs
+    # Ambiguously named bundle leaves (several flattened signals fit several leaves): group them by
+    # (path, bundle instance, candidate set) and find, by propagation, an assignment of names to
+    # leaves that is consistent with the net bijection established by everything else.
+    groups = {}
+    for (mpath, bname, lp), opts in mapping["amb"]:
+        groups.setdefault((mpath, bname, tuple(opts)), []).append(lp)
+    pending = []
+    for (mpath, bname, opts), leaves in groups.items():
+        ppath = _map_path(mpath, segmap)
+        width = max(a[4] for a in model["anchors"] if a[0] == "bun" and a[1] == mpath and a[2] == bname and a[3] == leaves[0]) + 1
+        mnets = {lp: [model["anchors"][("bun", mpath, bname, lp, i)] for i in range(width)] for lp in leaves}
+        pnets = {nm: [psigs[(ppath, nm, i)] for i in range(width)] for nm in opts}
+        pending.append((mpath, bname, leaves, list(opts), mnets, pnets))
+
+    def consistent(pairs_):
+        lm, lp_ = {}, {}
+        for mn, pn in pairs_:
+            if mn in m2p and m2p[mn][0] != pn:
+                return False
+            if pn in p2m and p2m[pn][0] != mn:
+                return False
+            if lm.setdefault(mn, pn) != pn or lp_.setdefault(pn, mn) != mn:
+                return False
+        return True
+
+    def options(g):
+        mpath, bname, leaves, opts, mnets, pnets = g
+        out = []
+        for perm in itertools.permutations(opts, len(leaves)):
+            pr = [(mn, pn) for lp, nm in zip(leaves, perm) for mn, pn in zip(mnets[lp], pnets[nm])]
+            if consistent(pr):
+                out.append(pr)
+        return out
+
+    def commit(pr, g):
+        for mn, pn in pr:
+            m2p.setdefault(mn, (pn, ("s", g[0], g[1], 0)))
+            p2m.setdefault(pn, (mn, ("s", g[0], g[1], 0)))
+
+    progress = True
+    while pending and progress:
+        progress = False
+        for g in list(pending):
+            opts_ = options(g)
+            if not opts_:
+                return [f"flattened members of bundle {g[1]} at {g[0]}: no assignment of the signals {g[3]} to the members {g[2]} is consistent with the rest of the design"]
+            if len(opts_) == 1:
+                commit(opts_[0], g)
+                pending.remove(g)
+                progress = True
+        if not progress and pending:
+            # all remaining groups are still free: fix one (its nets are isolated from every pinned
+            # anchor) and propagate again
+            g = pending.pop(0)
+            commit(options(g)[0], g)
+            progress = True
     return diffs
 
 
